@@ -420,6 +420,39 @@ def run_case(concepts, case, spec):
                     got = {frozenset(c.intent) for c in lat}
                     if got != intents or len(lat) != base['n']:
                         differ('definition-workflow', 'moved-and-dup-row-copy:family-of-intents-changed', intents, got)
+            # one-axis rearrangements made with take(): the variants are derived first, the source definition
+            # is edited afterwards (it is reused to make the duplicated-row / full-column variant), and only
+            # then are the variants turned into contexts - they must still be the permuted base table
+            variants = []
+            src = call(d0.copy)
+            if src is not RAISED:
+                perm_p = rng.sample(list(case['properties']), m)
+                perm_o = rng.sample(list(case['objects']), n)
+                for label, kw in (('take-properties-reordered', {'properties': perm_p, 'reorder': True}),
+                                  ('take-objects-reordered', {'objects': perm_o, 'reorder': True}),
+                                  ('take-all-properties', {'properties': list(case['properties'])}),
+                                  ('take-all-objects', {'objects': list(case['objects'])}),
+                                  ('take-nothing-given', {})):
+                    v = call(src.take, **kw)
+                    if v is not RAISED:
+                        variants.append((label, v))
+                i = rng.randrange(n)
+                call(src.add_object, f'dup·{i}', [case['properties'][k] for k in range(m) if case['rows'][i] >> k & 1])
+                call(src.add_property, 'full·p', list(src.objects) if hasattr(src, 'objects') else [])
+                call(src.move_object, case['objects'][0], n - 1)
+                call(src.rename_property, case['properties'][-1], 'renamed·p')
+                COL.count('take_variants_source_edited_before_they_are_used', len(variants))
+                for label, v in variants:
+                    cv = call(concepts.Context, *v)
+                    latv = common.get_lattice(cv) if cv is not RAISED else RAISED
+                    if latv is RAISED:
+                        differ('definition-workflow', f'{label}:no-context-or-lattice', 'a lattice', 'exception')
+                        continue
+                    COL.count('relations_checked_definition_workflow')
+                    gotv = {(frozenset(c.extent), frozenset(c.intent)) for c in latv}
+                    if gotv != base['concepts']:
+                        differ('definition-workflow', f'{label}:concepts-changed-after-the-source-was-edited',
+                               base['concepts'], gotv)
             again = call(concepts.Context, *d0)
             if again is not RAISED:
                 log = obs(again, ('e', base['pairs']))
